@@ -33,7 +33,8 @@ from .terms import Recon, subst, simplify, show, atoms, walk, _texty, mkbool, mk
 from .norm import Normaliser
 
 SPEC_DIR = pathlib.Path(__file__).resolve().parent / "specs"
-_SKIP = {'assign', 'augname', 'assert', 'try', 'loop_exit', 'continue'}   # a continue shows in the path conditions of what follows
+_SKIP = {'assign', 'augname', 'try', 'loop_exit', 'continue'}   # a continue shows in the path conditions of what follows
+# (an assert is an effect like a raise: `assert c` is `if not c: raise AssertionError` - a new or stronger assert rejects inputs the reference accepts)
 
 
 def load_specs(modname):
@@ -592,7 +593,7 @@ class Summary:
                 if ident not in live_carried:
                     continue            # never read except by its own update; a use after the loop carries the value itself
                 data = ('tuple', (d[0], d[1]))
-            elif k in ('return', 'raise', 'expr', 'while_test', 'yield'):
+            elif k in ('return', 'raise', 'expr', 'while_test', 'yield', 'assert'):
                 data = d[0] if d[0] is not None else ('const', None)
             elif k == 'handler':
                 data = ('const', d[0])
